@@ -60,14 +60,19 @@ def main(tier):
     import itertools
     seqs = []
     for n in range(1, 4):
-        for s in itertools.product(['S', 'E', 'SE', 'nS', 'ES', 'Snt', 'nE', 'SS', 'tnSnE'], repeat=n):
+        for s in itertools.product(['S', 'E', 'SE', 'nS', 'ES', 'Snt', 'nE', 'SS', 'tnSnE', 'uS', 'uE', 'XB$'], repeat=n):
             if 1 <= c12.events_in(s) <= 6:
                 seqs.append(s)
     rnd.shuffle(seqs)
     res_c = pmap(c12.run_seq, [(s, False) for s in seqs[:b['c12_sample']]], chunksize=8)
     for r in res_c:
         r2 = dict(r)
-        r2['violations'] = [v for v in r.get('violations', []) if v.get('role') == 'panic']
+        r2['violations'] = []
+        for v in r.get('violations', []):
+            if v.get('role') == 'panic' and not any(x.get('role') == 'panic' and x.get('confirmed') for x in agg.violations):
+                c12.confirm_panic(binary, v, 0, PROP)
+                if v.get('confirmed') or not any(x.get('role') == 'panic' for x in agg.violations):
+                    r2['violations'].append(v)
         r2['cover'] = {'pairing paths': r.get('paths', 0)}
         agg.add(r2)
     # confirm normaliser panics on the real binary, one per (closure, message)
